@@ -103,9 +103,10 @@ def run_k(ctx, kres):
         viols.append(v)
     # --- K03c the shape of the session table ---
     from .. import gen2
-    st, nst = gen2.c03_session_table(ctx.seed, 4, sample=500 if ctx.quick else None)
-    kres["notes"].append(f"K03c: {nst} orders of opens / closes on two tokens (holes and foreign sessions in the session table), each followed by the login rules through every session")
-    viols += k_suite(ctx, kres, "K03c-session-table", [Trace("session-table", st)], in_projection, sig_of=sig_of, shrink_budget=60)
+    st, nst = gen2.c03_session_table(ctx.seed, 4 if ctx.quick else 5, sample=None if ctx.quick else 60000)
+    kres["notes"].append(f"K03c: {nst} orders of opens / closes / logins / logouts on two tokens (holes and foreign sessions in the session table; logins that outlive their sessions or not), "
+                         "each followed by the state of every session, of a fresh session on each token, and the login rules")
+    viols += k_suite(ctx, kres, "K03c-session-table(exhaustive)", [Trace("session-table%d" % i, t) for i, t in enumerate(st)], in_projection, sig_of=sig_of, shrink_budget=60, rank=lambda m: m["line"])
     # --- K03b random histories ---
     n, ops = (30, 40) if ctx.quick else (400, 120)
     hs = [Trace("h%d" % i, gen.spine_history(ctx.seed * 7919 + i, ops, probe_every=False).replace("fini\n", "") + "".join(f"sinfo {k}\n" for k in range(1, 30)) + "fini\n") for i in range(n)]
